@@ -80,70 +80,12 @@ def table_rule(ctx, prog, pfx='C15'):
 
 
 def emit_rule(ctx, prog, pfx='C15'):
-    f = prog.func('decode', 'emit')
-    P = Prov(prog, f)
-    E = enumerators(f.module)
-
-    def is_buf(e):
-        return e[0] == 'param' and e[2] == 'buf'
-    nblocks = 0
-    bad = []
-    for bl in f.blocks.values():
-        outs = []
-        for i in bl.insns:
-            if i.op == 'store' and i.extra['vty'] == ('int', 8):
-                a = P.addr(i.ops[1])
-                if derives_from(P, a, is_buf):
-                    outs.append(i)
-        folds = [i for i in bl.insns if i.op == 'load' and addr_key(P.addr(i.ops[0])).startswith('G:crc_table')]
-        if not outs and not folds:
-            continue
-        nblocks += 1
-        if len(outs) != len(folds):
-            bad.append('%s: %d output byte(s) stored, %d CRC fold(s)' % (f.loc(bl.insns[0]), len(outs), len(folds)))
-            continue
-        # the folded byte is the byte stored
-        for st, ld in zip(outs, folds):
-            a = P.addr(ld.ops[0])
-            idx = a[2][-1][1] if a[2] and a[2][-1][0] == 'i' else None
-            ok = False
-            if isinstance(idx, tuple):
-                ix = strip_ext(idx)
-                if ix[0] == 'bin' and ix[1] == 'xor':
-                    parts = [strip_ext(ix[2]), strip_ext(ix[3])]
-                    sv = strip_ext(P.expr(st.ops[0]))
-                    hi = [p for p in parts if p[0] == 'bin' and p[1] == 'lshr' and strip_casts(p[3]) == ('const', 24)]
-                    by = [p for p in parts if strip_casts(p) == strip_casts(sv)]
-                    ok = len(hi) == 1 and len(by) >= 1
-            if not ok:
-                bad.append('%s: table index is not (s >> 24) ^ <byte stored>' % f.loc(ld))
-    ctx.floor(pfx + ' emit(): blocks that write output bytes', nblocks, 10)
-    ctx.ob(pfx + '.emit.fold_every_byte', 'emit(): every byte stored to the output buffer is folded into the block '
-           'CRC in the same step (index (s>>24) ^ byte)', f.loc(), not bad, '; '.join(bad[:4]) or
-           '%d basic blocks, one store and one fold each' % nblocks, evals=nblocks)
-    # OK return: ds->crc = s ^ ~0 ; MORE return: rle_crc = s ; entry: s = rle_crc ; same s
-    crc_st = [i for i in f.insns() if i.op == 'store' and path_key(P.addr(i.ops[1])[2]) == '.crc']
-    save_st = [i for i in f.insns() if i.op == 'store' and path_key(P.addr(i.ops[1])[2]) == '.rle_crc']
-    ctx.require(len(crc_st) == 1 and len(save_st) == 1, 'emit(): expected one store to ds->crc and one to ds->rle_crc')
-    v = strip_casts(P.expr(crc_st[0].ops[0]))
-    ok = v[0] == 'bin' and v[1] == 'xor' and strip_casts(v[3]) in (('const', -1), ('const', 0xFFFFFFFF))
-    sfinal = strip_casts(v[2]) if ok else None
-    ssave = strip_casts(P.expr(save_st[0].ops[0]))
-    ctx.ob(pfx + '.emit.final_crc', 'emit() publishes ds->crc = s ^ 0xFFFFFFFF and saves the same s in rle_crc when '
-           'suspended', f.loc(crc_st[0]), ok and sfinal == ssave, 'ds->crc <- %s; rle_crc <- %s' % (render(v), render(ssave)))
-    rs = c05.ret_sources(f)
-    dom = cfg.dominators(f)
-    okb = rs.get(E['OK'], [])
-    moreb = rs.get(E['MORE'], [])
-    ctx.ob(pfx + '.emit.final_crc', 'every OK return of emit() is dominated by the store to ds->crc, every MORE '
-           'return by the store to rle_crc', f.loc(), bool(okb) and bool(moreb) and
-           all(crc_st[0].block.name in dom[b] for b in okb) and all(save_st[0].block.name in dom[b] for b in moreb),
-           'OK from %s, MORE from %s' % (okb, moreb))
-    # s starts from rle_crc: the value folded first derives from the load of rle_crc
-    def is_rle_crc_load(e):
-        return e[0] == 'load' and path_key(e[1][2]) == '.rle_crc'
-    ctx.ob(pfx + '.emit.final_crc', 'the CRC accumulator is resumed from ds->rle_crc', f.loc(),
-           sfinal is not None and derives_from_value(P, sfinal, is_rle_crc_load), render(sfinal) if sfinal else '')
+    """emit() folds every byte it stores into the block CRC, resumes the accumulator from rle_crc, saves it there at
+    MORE and publishes its complement at OK: decided by the abstract walk of emit() (lib/unrle.py, rule `crc`: the CRC
+    handed back is 'the CRC of the bytes stored [0,w)', advanced only by the CRC() step applied to the byte just
+    stored).  The structural rules that used to stand here alarmed on behaviour-preserving rewrites of emit()."""
+    import codecrules
+    codecrules.unrle_walk(ctx, prog, pfx, only=('crc', 'more', 'ok'))
     # decode() starts every block with rle_crc = -1
     d = prog.func('decode', 'decode')
     Pd = Prov(prog, d)
